@@ -132,8 +132,21 @@ namespace
         return s;
     }
 
+    // statements wired into a separate SubGraph-kind Wiring (what compile_subgraph / nested_<> composes into):
+    // inputs are child-local nodes, declared boundary arguments, or outer ports captured from the parent wiring
+    struct ChildIn { int kind{0}; std::int64_t ref{0}; };   // 0 child-local node, 4 declared argument, 5 captured parent port
+    struct ChildStmt
+    {
+        std::int64_t              cl{0}, child{0}, def{0};
+        int                       out_ty{1};
+        bool                      has_sc{false};
+        std::vector<std::int64_t> sc;
+        std::vector<ChildIn>      ins;
+    };
+
     struct Program
     {
+        std::vector<ChildStmt>                 child_stmts;
         std::int64_t                           end_time{20};
         bool                                   exec{false};
         std::map<std::int64_t, Stmt>           stmts;
@@ -179,6 +192,20 @@ namespace
                 }
                 case 6: { Stmt s; s.tag = 6; s.label = l.at(1); s.a = l.at(2); s.b = l.at(3); p.stmts[s.label] = s; break; }
                 case 8: p.orders.emplace_back(l.begin() + 2, l.end()); break;
+                case 12:
+                {
+                    ChildStmt c;
+                    c.cl = l.at(1); c.child = l.at(2); c.def = l.at(3); c.out_ty = (int)l.at(4); c.has_sc = l.at(5) != 0;
+                    for (std::int64_t i = 0; i < l.at(6); ++i) { c.sc.push_back(l.at(7 + i)); }
+                    p.child_stmts.push_back(std::move(c));
+                    break;
+                }
+                case 13:
+                    for (ChildStmt &c : p.child_stmts)
+                    {
+                        if (c.cl == l.at(1) && c.child == l.at(2)) { c.ins.push_back(ChildIn{(int)l.at(4), l.at(5)}); }
+                    }
+                    break;
                 default: break;
             }
         }
@@ -453,6 +480,70 @@ namespace
         }
     };
 
+    // Sub-graph wirings: only the interning of boundary / captured-boundary sources is observed (no finish).
+    void wire_children(const Program &prog, std::int64_t k, Wirer &wr, hgv::Out &out)
+    {
+        std::map<std::int64_t, std::vector<const ChildStmt *>> by_child;
+        for (const ChildStmt &c : prog.child_stmts) { by_child[c.child].push_back(&c); }
+        for (auto &[child_id, stmts] : by_child)
+        {
+            if (k % 2 == 1) { std::reverse(stmts.begin(), stmts.end()); }   // capture indices depend on capture order
+            Wiring                                         child{WiringKind::SubGraph};
+            std::map<std::int64_t, WiringPortRef>          ports;
+            std::map<const WiringInstance *, std::int64_t> creator;
+            std::map<std::int64_t, std::int64_t>           rep;
+            bool                                           ok = true;
+            // child-local references need their producer first: wire leaf statements, then the rest
+            for (int pass = 0; pass < 2 && ok; ++pass)
+            {
+                for (const ChildStmt *c : stmts)
+                {
+                    const bool local = std::any_of(c->ins.begin(), c->ins.end(), [](const ChildIn &i) { return i.kind == 0; });
+                    if ((pass == 0) == local) { continue; }
+                    try
+                    {
+                        std::vector<WiringPortRef> sources;
+                        for (const ChildIn &in : c->ins)
+                        {
+                            if (in.kind == 4) { sources.push_back(WiringPortRef::boundary_source((std::size_t)in.ref, {}, metas().ts_int)); }
+                            else if (in.kind == 5) { sources.push_back(child.capture_outer_source(wr.ports.at(in.ref))); }
+                            else { sources.push_back(ports.at(in.ref)); }
+                        }
+                        NodeTypeMetaData meta;
+                        meta.display_name  = "hgv_rank_child_node";
+                        meta.output_schema = schema_of(Ty{c->out_ty == 2 ? 2 : 1, {}});
+                        meta.node_kind     = NodeKind::Compute;
+                        std::vector<std::pair<std::string, const TSValueTypeMetaData *>> fields;
+                        for (std::size_t i = 0; i < sources.size(); ++i) { fields.emplace_back("i" + std::to_string(i), sources[i].schema); }
+                        const TSValueTypeMetaData *in_schema = fields.empty() ? nullptr : TypeRegistry::instance().un_named_tsb(fields);
+                        meta.input_schema                   = in_schema;
+                        NodeBuilder builder                 = NodeBuilder::native(std::move(meta), NodeCallbacks{});
+                        if (in_schema != nullptr)
+                        {
+                            builder.input_endpoint(graph_wiring_detail::input_endpoint_for_sources(
+                                in_schema, std::span<const WiringPortRef>{sources.data(), sources.size()}));
+                        }
+                        Stmt sc; sc.has_sc = c->has_sc; sc.sc = c->sc;
+                        WiringPortRef port = child.add_node(def_index(c->def), std::move(builder),
+                                                            std::span<const WiringPortRef>{sources.data(), sources.size()}, make_scalars(sc));
+                        auto [it, fresh] = creator.try_emplace(port.peered_node(), c->cl);
+                        rep[c->cl]        = it->second;
+                        ports.emplace(c->cl, std::move(port));
+                    }
+                    catch (const std::exception &e)
+                    {
+                        std::fprintf(stderr, "rank_driver: child wiring error: %s\n", e.what());
+                        ok = false;
+                        break;
+                    }
+                }
+            }
+            Line l{28, k, child_id, ok ? 0 : 1};
+            for (const auto &[cl, r] : rep) { l.push_back(cl); l.push_back(r); }
+            out.line(l);
+        }
+    }
+
     std::int64_t error_code(const std::string &m)
     {
         if (m.find("detected a cycle in the wiring graph") != std::string::npos) { return 1; }
@@ -496,6 +587,7 @@ namespace
             }
         }
         out.line(reps);   // printed before finish: the interning map exists even if finish rejects
+        wire_children(prog, k, wr, out);
         std::optional<GraphBuilder> gb;
         try { gb.emplace(std::move(wr.w).finish()); }
         catch (const std::exception &e)
